@@ -1,7 +1,7 @@
 """check configuration for C11"""
 
 CFG = {'module': 'Dnp3.Props.C11',
- 'gen': [],
+ 'gen': ['DbTypes.lean'],
  'engines': ['db', 'outstationdb'],
  'monitors': ['series_covers_exactly_once_snapshot',
               'series_shape',
@@ -14,16 +14,21 @@ CFG = {'module': 'Dnp3.Props.C11',
               'series_consecutive',
               'solicited_correlated',
               'no_stall'],
- 'rule': 'engine db: operation sequences straight on the real Database (add / update / select by every READ '
-         'header form / write_response_headers at capacities 0..2048 / write_unsolicited / '
-         'clear_written_events / reset), compared with the Lean database model; engine outstationdb: the '
-         'same session grammar over a populated database (binary and analog points in classes 0-3, event '
-         'buffers of 1-20 per type, big databases forcing multi-fragment READ series), update transactions '
-         'interleaved at every point, READs by class / type / range / variation / count, unsolicited series, '
-         'confirms right / wrong / late / missing, timeouts, aborting requests, ENABLE/DISABLE_UNSOLICITED, '
-         'disconnects; an event ledger (recorded / carried / released) and a mirrored reference database are '
-         'kept by the monitors. Each history runs the real code and the model; monitors evaluate the '
-         "property predicates on the implementation's trace with an independent decoder.",
+ 'rule': 'engine db: operation sequences straight on the real Database over all eight point types (add with '
+         'configured static / event variation and dead-band / update with every UpdateOptions / select by '
+         "every READ header form the library's ReadHeader::from_* tables accept / write_response_headers at "
+         'capacities 0..2048 / write_unsolicited / clear_written_events / reset; per-type event capacities; '
+         'dead-band drift histories), compared with the Lean database model; engine outstationdb: the same '
+         'session grammar over a populated database (points of any mix of the eight point types - binary / '
+         'double-bit / binary output status / counter / frozen counter / analog / analog output status / '
+         'octet string - in classes 0-3, per-type event capacities 0-250, equal or each type its own, '
+         'dead-bands, class-zero configurations, big databases forcing multi-fragment READ series), update '
+         'transactions interleaved at every point, READs by class / type / range / variation / count, '
+         'unsolicited series, confirms right / wrong / late / missing, timeouts, aborting requests, '
+         'ENABLE/DISABLE_UNSOLICITED, disconnects; an event ledger (recorded / carried / released) and a '
+         'mirrored reference database are kept by the monitors. Each history runs the real code and the '
+         "model; monitors evaluate the property predicates on the implementation's trace with an independent "
+         'decoder.',
  'trusted_base': ['hand-written Lean model of outstation/database/** (event buffer, static database, '
                   'response writers) tied by differential execution of the real Database (engine db) and of '
                   'the real OutstationTask (engine outstationdb)',
@@ -31,13 +36,19 @@ CFG = {'module': 'Dnp3.Props.C11',
                   'control/collection.rs, deferred.rs, transport/reader.rs pop_request) tied by differential '
                   'execution of the REAL OutstationTask (real link layer, transport, parser, session, '
                   'database) over an in-memory pipe on a paused clock',
-                  'application / control-handler callbacks are scripted identically on both sides'],
+                  'application / control-handler callbacks are scripted identically on both sides',
+                  'generated per-type tables Gen/DbTypes.lean (point types, Insertable slots, is_any_full / '
+                  'max_events lists, ReadHeader::from_* arms, Updatable accessors, static / event variation '
+                  'tables) re-extracted from outstation/database/** on every run; their well-formedness is '
+                  'proved (Props.Db §Tables)'],
  'assumptions': ['tokio timer and Notify semantics; xxh64 collision-free on compared fragments (model '
                  'compares octets)'],
- 'level_text': 'Lean theorems over the database model for all databases / selections / capacities / series '
-               '(exactly-once ascending coverage, conservation across fragments, progress, capacity; '
-               'snapshot values for selections on an idle queue) and over the session model (confirm gating, '
-               'continuation numbering); tie: correspondence of the real Database and the real task vs the '
-               'models + series monitors against a mirrored reference database',
+ 'level_text': 'Lean theorems over the database model (all eight point types; READ arms of the generated '
+               'ReadHeader::from_* tables keep range / count and map each variation to its own type) for all '
+               'databases / selections / capacities / series (exactly-once ascending coverage, conservation '
+               'across fragments, progress, capacity; snapshot values for selections on an idle queue) and '
+               'over the session model (confirm gating, continuation numbering); tie: correspondence of the '
+               'real Database and the real task vs the models + series monitors against a mirrored reference '
+               'database',
  'level_note': 'trusted: Lean kernel, harness, scripted callbacks; Rust modelled not verified; runtime '
                'scheduling outside the model'}
